@@ -87,6 +87,17 @@ func Uninstall() {
 	verifrt.ReleasedHook = nil
 	verifrt.IOHook = nil
 	verifrt.IOFault = nil
+	verifrt.PointHook = nil
+}
+
+// InstallPoints makes the preemption points of the instrumented library yield to s about every mean points
+// (mean <= 0: never).
+func InstallPoints(s *sched.Sched, mean int) {
+	if s == nil || mean <= 0 {
+		return
+	}
+	s.PreemptMean = mean
+	verifrt.PointHook = s.Preempt
 }
 
 // IOStats counts what the file-system seam saw.
